@@ -54,6 +54,7 @@ def gen_profile(rng, focus=None):
     p["auto_comp"] = rng.random() < 0.3
     p["mainwp"] = rng.random() < 0.4
     p["same_step"] = rng.random() < 0.4  # equal work amounts so linked tasks hit zero together
+    p["shuffle_list"] = rng.random() < 0.35  # workflow.task_list not in dependency order
     p.update(focus)
     if not p["comps"]:
         p["facilities"] = p["nested"] = p["conveyor"] = False
@@ -225,7 +226,12 @@ def gen_model(rng, p, n_tasks=None):
             for f in wp["facs"]:
                 if rng.random() < 0.35:
                     f["abs"] = gen_absence(rng, 14, rng.randint(1, 4))
-    return {"tasks": tasks, "deps": deps, "teams": teams, "comps": comps, "wps": wps}
+    m = {"tasks": tasks, "deps": deps, "teams": teams, "comps": comps, "wps": wps}
+    if p.get("shuffle_list") and n > 1:
+        order = list(range(n))
+        rng.shuffle(order)
+        m["order"] = order
+    return m
 
 
 def gen_absence(rng, horizon, k):
